@@ -159,6 +159,13 @@ def generate(check, rng, tier, run_index):
             o = _gen_handle_op(rng, len(handles), len(subsets))
             o['raw'] = True
         ops.append(o)
+    if files[0]['fmt'] == 'trr':
+        # AVOIDED (known finding C02/trr/heap-overflow): TRR reads with stride > 1 and an atom subset write
+        # full frames into a subset-sized scratch array (trr.pyx `xyz_stride`), corrupting the heap of the
+        # worker.  The configuration is left out of generation so the simulator itself stays sound.
+        for o in ops:
+            if 'ai' in o and (o.get('stride') or 1) > 1:
+                del o['ai']
     return {'check': check, 'files': files, 'handles': handles, 'subsets': subsets, 'ops': ops}
 
 
@@ -415,13 +422,18 @@ def step_handle(res, check, world, hc, op, stepno, judge=True):
 
 # ------------------------------------------------------------------ loader steps (C02 oracle)
 
-def _full_load(world, k):
+def _full_load(world, k, kind='obj'):
+    """the reference: md.load(file, top=<the same kind of topology argument>) on a fresh handle"""
     f = world.files[k]
+    if kind == 'shared':
+        kind = 'obj'
     if f['F'] is None:
-        top = world.top_for(k, 'obj')
+        f['F'] = {}
+    if kind not in f['F']:
+        top = world.top_for(k, kind)
         kw = {} if top is None else {'top': top}
-        f['F'] = world.md.load(f['path'], **kw)
-    return f['F']
+        f['F'][kind] = world.md.load(f['path'], **kw)
+    return f['F'][kind]
 
 
 def _traj_eq(md, got, ref_slice, ref_top, what):
@@ -430,19 +442,21 @@ def _traj_eq(md, got, ref_slice, ref_top, what):
         return 'n_frames', {'expected': ref_slice.n_frames, 'got': got.n_frames}
     if got.n_atoms != ref_slice.n_atoms:
         return 'n_atoms', {'expected': ref_slice.n_atoms, 'got': got.n_atoms}
-    if not np.array_equal(got.xyz, ref_slice.xyz):
+    # Trajectory's canonical precision is float32; slicing casts, loaders sometimes hand over float64 cells
+    f32 = lambda a: np.asarray(a, dtype=np.float32)
+    if not np.array_equal(f32(got.xyz), f32(ref_slice.xyz)):
         ids_g = _decode_ids(got.xyz, None)
         ids_r = _decode_ids(ref_slice.xyz, None)
         if ids_g != ids_r:
             return 'frames', {'expected_tag': ids_r, 'got_tag': ids_g}
         return 'xyz', {'max_abs_err': float(np.nanmax(np.abs(got.xyz - ref_slice.xyz)))}
-    if not np.array_equal(np.asarray(got.time), np.asarray(ref_slice.time)):
+    if not np.array_equal(f32(got.time), f32(ref_slice.time)):
         return 'time', {'expected': np.asarray(ref_slice.time).tolist()[:20], 'got': np.asarray(got.time).tolist()[:20]}
     for nm in ('unitcell_lengths', 'unitcell_angles'):
         a, b = getattr(got, nm), getattr(ref_slice, nm)
         if (a is None) != (b is None):
             return 'cell_presence', {'field': nm, 'expected_none': b is None, 'got_none': a is None}
-        if a is not None and not np.array_equal(a, b):
+        if a is not None and not np.array_equal(f32(a), f32(b)):
             return 'cell', {'field': nm, 'expected': b.tolist()[:3], 'got': a.tolist()[:3]}
     if ref_top is not None:
         if got.topology is None or not (got.topology == ref_top) or \
@@ -476,7 +490,9 @@ def _gen_flags(op, N):
         fl.append('chunk=0')
     elif op['stride'] > 1 and op['chunk'] % op['stride'] != 0:
         fl.append('chunk%stride!=0')
-    if op['skip'] > 0:
+    if op['skip'] >= N:
+        fl.append('skip=N')
+    elif op['skip'] > 0:
         fl.append('skip>0')
     if op.get('ai') is not None:
         fl.append('ai')
@@ -500,7 +516,7 @@ def _finish_gen(res, check, world, gc_, stepno, terminated):
     if not terminated:
         viol('no_termination', {'chunks_yielded': len(gc_.chunks)})
         return
-    F = _full_load(world, op['f'])
+    F = _full_load(world, op['f'], op['top'])
     R, Rtop = _restrict(F, ai)
     skip = min(op['skip'], N)
     chunk, stride = op['chunk'], op['stride']
@@ -624,7 +640,7 @@ def step_loader(res, check, world, gens, op, stepno):
             kw['atom_indices'] = ai
         patched = op['top'] == 'shared' and 'subset' in getattr(f['shared_top'], '__dict__', {})
         flags = ('ai' if ai is not None else 'all') + (',top_patched' if patched else '')
-        F = _full_load(world, k)
+        F = _full_load(world, k, op['top'])
         R, Rtop = _restrict(F, ai)
         try:
             if kind == 'load':
@@ -687,7 +703,7 @@ def step_loader(res, check, world, gens, op, stepno):
         # reference: join of the individual loads (each = its full load strided and restricted)
         pieces = []
         for k in ks:
-            R, Rtop = _restrict(_full_load(world, k), ai)
+            R, Rtop = _restrict(_full_load(world, k, op['top']), ai)
             pieces.append(R[::(op['stride'] or 1)])
         exp = pieces[0] if len(pieces) == 1 else md.join(pieces, check_topology=False)
         bad = _traj_eq(md, got, exp, pieces[0].topology, 'load_list')
